@@ -14,20 +14,20 @@ import (
 )
 
 type PropSpec struct {
-	ID       string
-	Title    string
-	Gen      PropGen
-	Filter   func(in Inst, tier string) bool
-	PkgSize  int
-	Bounds   func(tier string) Bounds
-	Timeout  func(tier string) time.Duration
-	Extra    func(r *Runner) // additional, property-specific stages
-	Assume   []string
-	Outside  []string
-	Level    string
-	RunFn    func(r *Runner) // if set, replaces the mode-A pipeline entirely
-	SkipKind func(in Inst, kind string, tier string) bool
-	Corpus   func(tier string, seed int64) []Inst
+	ID          string
+	Title       string
+	Gen         PropGen
+	Filter      func(in Inst, tier string) bool
+	PkgSize     int
+	Bounds      func(tier string) Bounds
+	Timeout     func(tier string) time.Duration
+	Extra       func(r *Runner) // additional, property-specific stages
+	Assume      []string
+	Outside     []string
+	Level       string
+	RunFn       func(r *Runner) // if set, replaces the mode-A pipeline entirely
+	SkipKind    func(in Inst, kind string, tier string) bool
+	Corpus      func(tier string, seed int64) []Inst
 	AbstractMul bool
 }
 
@@ -78,28 +78,28 @@ func (kf *KnownFile) frontend(prop, typ, stage string) *KnownFinding {
 
 // Runner carries the state of one check run.
 type Runner struct {
-	Spec     *PropSpec
-	Tier     string
-	Seed     int64
-	S        *Scratch
-	Known    *KnownFile
-	Start    time.Time
-	Results  []HarnessResult
-	FE       []FEFailure
-	Pkgs     []*FixPkg
-	Viol     []string // VIOLATION lines
-	KFLines  []string
-	Incons   []string // engine inconsistencies / inconclusive
-	Replays  []Replayed
-	Programs int
-	Extra    map[string]interface{}
-	Samples  []interface{}
-	Workers  int
-	TVAgree  int
+	Spec           *PropSpec
+	Tier           string
+	Seed           int64
+	S              *Scratch
+	Known          *KnownFile
+	Start          time.Time
+	Results        []HarnessResult
+	FE             []FEFailure
+	Pkgs           []*FixPkg
+	Viol           []string // VIOLATION lines
+	KFLines        []string
+	Incons         []string // engine inconsistencies / inconclusive
+	Replays        []Replayed
+	Programs       int
+	Extra          map[string]interface{}
+	Samples        []interface{}
+	Workers        int
+	TVAgree        int
 	ReplayOverride func(hr *HarnessResult) string
 	AfterInject    func()
-	Filter   *regexp.Regexp
-	Stubs    []string
+	Filter         *regexp.Regexp
+	Stubs          []string
 }
 
 func (r *Runner) violation(replay string, why string) {
@@ -545,30 +545,30 @@ func (r *Runner) writeEvidence() {
 		fnNames = append(fnNames[:60], fmt.Sprintf("... and %d more", len(fnNames)-60))
 	}
 	cov := map[string]interface{}{
-		"evaluations":           max(nObl, 1),
-		"distinct_nontrivial":   nontrivial,
-		"rule":                  "one harness per (property clause, type instantiation); evaluations = solver obligations discharged (assert/panic/unwind/bound/reach); a harness counts as distinct and non-trivial when its reachability witness (path condition of its assertion under all assumptions) is sat",
-		"samples":               samples,
-		"programs":              r.Programs,
-		"obligations":           nObl,
-		"discharged":            nUnsat + nSat,
-		"verdicts":              map[string]int{"unsat": nUnsat, "sat": nSat, "other": nOther},
-		"obligation_kinds":      kinds,
-		"by_solver":             bySolver,
-		"solver_ms":             solveMs,
-		"symbolic_execution_ms": execMs,
-		"functions_encoded":     fnNames,
-		"functions_encoded_n":   len(funcs),
-		"ssa_instructions":      instrs,
-		"frontend_failures":     r.FE,
-		"replays":               r.Replays,
-		"known_findings_hit":    r.KFLines,
-		"inconclusive":          r.Incons,
-		"outside_claim":         spec.Outside,
-		"states":                max(nObl, 1),
-		"transitions":           max(instrs, 1),
+		"evaluations":                   max(nObl, 1),
+		"distinct_nontrivial":           nontrivial,
+		"rule":                          "one harness per (property clause, type instantiation); evaluations = solver obligations discharged (assert/panic/unwind/bound/reach); a harness counts as distinct and non-trivial when its reachability witness (path condition of its assertion under all assumptions) is sat",
+		"samples":                       samples,
+		"programs":                      r.Programs,
+		"obligations":                   nObl,
+		"discharged":                    nUnsat + nSat,
+		"verdicts":                      map[string]int{"unsat": nUnsat, "sat": nSat, "other": nOther},
+		"obligation_kinds":              kinds,
+		"by_solver":                     bySolver,
+		"solver_ms":                     solveMs,
+		"symbolic_execution_ms":         execMs,
+		"functions_encoded":             fnNames,
+		"functions_encoded_n":           len(funcs),
+		"ssa_instructions":              instrs,
+		"frontend_failures":             r.FE,
+		"replays":                       r.Replays,
+		"known_findings_hit":            r.KFLines,
+		"inconclusive":                  r.Incons,
+		"outside_claim":                 spec.Outside,
+		"states":                        max(nObl, 1),
+		"transitions":                   max(instrs, 1),
 		"traces_validated_against_impl": len(r.Replays) + r.TVAgree,
-		"explanation":           "bounded symbolic execution of the real SSA of freshly generated code; every verdict is an SMT solver answer over all values within the bounds",
+		"explanation":                   "bounded symbolic execution of the real SSA of freshly generated code; every verdict is an SMT solver answer over all values within the bounds",
 	}
 	var reduced []map[string]string
 	for _, hr := range r.Results {
